@@ -27,7 +27,7 @@ def shards(tier):
 
 def gates(c, tier):
     out = [f"amount class {a} never used" for a in AMOUNT_CLASSES if c.get("amount:" + a, 0) == 0]
-    for k in ("partial-drain-then-send", "role:client", "role:server", "refused-send", "drain-while-empty"):
+    for k in ("partial-drain-then-send", "role:client", "role:server", "refused-send", "drain-while-empty", "failing-send"):
         if c.get(k, 0) == 0:
             out.append(f"never observed {k}")
     return out
@@ -60,6 +60,9 @@ def g_steps(r, role):
             before = set(shadow.model.ip)
             shadow.step(a)
             retired.extend(before - set(shadow.model.ip))
+    if r.random() < 0.25:
+        steps.append(("failing-send", r.randrange(4)))
+        steps.append(("drain", "None"))
     return steps
 
 
@@ -75,6 +78,31 @@ def run_case(role, steps):
 
     rr = _random.Random(len(steps))
     for a in steps:
+        if a[0] == "failing-send":
+            # a send call that raises (whatever the exception) did not succeed: it must contribute no byte
+            before = subj.sess.data_to_send()
+            subj.out_stream += before
+            drained_total += len(before)
+            try:
+                if role == "client":
+                    [lambda: subj.sess.search_request("dc=x", attributes=["cn", "bad\udc80attr"]), lambda: subj.sess.extended_request("1.2.\ud800"),
+                     lambda: subj.sess.bind_simple("cn=\udfff", "pw"), lambda: subj.sess.search_request("dc=\ud800")][a[1] % 4]()
+                else:
+                    ids = sorted(subj.model.ip) or [1]
+                    [lambda: subj.sess.search_result_entry(ids[0], "cn=\ud800", []), lambda: subj.sess.extended_response(ids[0], name="1.2.\udc00"),
+                     lambda: subj.sess.search_result_reference(ids[0], ["ldap://ok", "ldap://\ud800"]), lambda: subj.sess.bind_response(ids[0], diagnostics_message="\udfff")][a[1] % 4]()
+                obs["failing-send:unexpectedly-accepted"] = obs.get("failing-send:unexpectedly-accepted", 0) + 1
+                return out, obs  # the library accepted it (not a failing send after all): stop this case, nothing to judge
+            except Exception:
+                obs["failing-send"] = obs.get("failing-send", 0) + 1
+            leaked = subj.sess.data_to_send()
+            if leaked:
+                out.append(("failed-send-left-bytes", f"a send call that raised while encoding left {len(leaked)} bytes in the outgoing stream: {leaked[:40].hex()}"))
+                return out, obs
+            # the twin does not get the failing call; protocol state after a failed send is not compared (C08/C10's subject)
+            obs["stop-state-compare"] = 1
+            return_after_fail = True
+            continue
         if a[0] == "drain":
             pend = queued_total - drained_total
             cls = a[1]
